@@ -9,8 +9,10 @@ import sys
 import time
 
 HERE = os.path.dirname(os.path.dirname(os.path.abspath(__file__)))
-REPLAYS = os.path.join(HERE, "replays")
-EVIDENCE = os.path.join(HERE, "evidence")
+# VERIF_OUT redirects what a run writes (seeded-change validation on a scratch copy must not overwrite the evidence of /repo)
+_OUT = os.environ.get("VERIF_OUT") or HERE
+REPLAYS = os.path.join(_OUT, "replays")
+EVIDENCE = os.path.join(_OUT, "evidence")
 KNOWN = os.path.join(HERE, "known_findings.json")
 
 CONTRACT_MODULES = []     # filled by contracts/__init__.py
@@ -38,7 +40,16 @@ def functions_for(pid):
             props.update(p or ())
         if pid in props and not getattr(con, "assumed", None):
             out.append(key)
+    for key in included_for(pid):
+        if key in REGISTRY and key not in out and not getattr(REGISTRY[key], "assumed", None):
+            out.append(key)
     return sorted(out)
+
+
+def included_for(pid):
+    """functions a property also rests on, all of whose obligations count for it (props_meta `include`)"""
+    from . import props_meta
+    return list(props_meta.META.get(pid, {}).get("include", []))
 
 
 def assumed_for(pid):
@@ -162,6 +173,7 @@ def check_property(pid, tier="quick", seed=0, extra_checks=None):
     _verify_one.pid = pid
     os.environ["VERIF_TIER_ACTIVE"] = tier
     results = run_functions(keys)
+    whole = set(included_for(pid))
     n_obl = n_dis = 0
     violations, undecided, faults, known_hits = [], [], [], []
     samples = []
@@ -180,7 +192,7 @@ def check_property(pid, tier="quick", seed=0, extra_checks=None):
             faults.append((fr["function"], fr["message"]))
             continue
         for ob in fr["obligations"]:
-            if ob["kind"] == "post" and pid not in ob["props"]:
+            if ob["kind"] == "post" and pid not in ob["props"] and fr["function"] not in whole:
                 continue
             solver_secs += ob["secs"]
             backends[ob["backend"]] = backends.get(ob["backend"], 0) + 1
